@@ -381,6 +381,11 @@ static void M__ZNSt6localeC1Ev(void *self) { *(void **)self = 0; }
 static void M__ZNSt6localeD1Ev(void *self) { (void)self; }
 #endif
 /* optional fault injection (C20): the stream turns bad once `verif_stream_fail_at` bytes have been transferred */
+/* byte copy between a stream buffer and the caller: its own loop so that harnesses can bound it separately from message strings */
+static inline void verif_stream_copy(void *d, const void *s, u64 n) {
+  u8 *dd = (u8 *)d; const u8 *ss = (const u8 *)s;
+  for (u64 i = 0; i < n; i++) dd[i] = ss[i];
+}
 static s64 verif_stream_fail_at = -1;
 static u64 verif_stream_xfer;
 #ifdef USES__ZNSi4readEPcl
@@ -394,12 +399,12 @@ static void *M__ZNSi4readEPcl(void *self, void *dst, s64 n) {
   if (k < 0) k = 0;
   if (verif_stream_fail_at >= 0 && (s64)verif_stream_xfer + k > verif_stream_fail_at) {
     k = verif_stream_fail_at - (s64)verif_stream_xfer; if (k < 0) k = 0;
-    verif_memcpy(dst, sb->in_cur, (u64)k); sb->in_cur += k; verif_stream_xfer += (u64)k;
+    verif_stream_copy(dst, sb->in_cur, (u64)k); sb->in_cur += k; verif_stream_xfer += (u64)k;
     *(s64 *)((u8 *)self + 8) = k;
     verif_ios_setstate(ios, VIOS_BAD);
     return self;
   }
-  verif_memcpy(dst, sb->in_cur, (u64)k);
+  verif_stream_copy(dst, sb->in_cur, (u64)k);
   sb->in_cur += k; verif_stream_xfer += (u64)k;
   *(s64 *)((u8 *)self + 8) = k;
   if (k != n) verif_ios_setstate(ios, VIOS_EOF | VIOS_FAIL);
@@ -461,7 +466,7 @@ static void *M__ZNSo5writeEPKcl(void *self, void *src, s64 n) {
   if (room < 0) room = 0;
   s64 k = n < room ? n : room;
   if (k < 0) k = 0;
-  verif_memcpy(sb->out_cur, src, (u64)k);
+  verif_stream_copy(sb->out_cur, src, (u64)k);
   sb->out_cur += k; verif_stream_xfer += (u64)k;
   if (k != n) verif_ios_setstate(ios, VIOS_BAD);
   return self;
